@@ -911,14 +911,21 @@ def _emit_fn(g, meta, tmpl, rel, src, m, ctx, name, kv, subs):
             # just before the tail expression: after the last `;` at brace depth 0 of the body
             mb = mask(body)
             depth = 0
-            last = 0
+            bounds = [0]
             for ii, ch in enumerate(mb):
                 if ch in '{([':
                     depth += 1
                 elif ch in '})]':
                     depth -= 1
+                    if ch == '}' and depth == 0:
+                        bounds.append(ii + 1)      # end of a block statement (or of a block-like tail expression)
                 elif ch == ';' and depth == 0:
-                    last = ii + 1
+                    bounds.append(ii + 1)
+            last = 0
+            for b in bounds:
+                rest = mb[b:].strip()
+                if rest and not rest.startswith('else') and not rest.startswith('.') and not rest.startswith('?'):
+                    last = b
             inserts.append((last, content))
             continue
         off = find_anchor(body, atext, kk)
